@@ -197,7 +197,7 @@ impl SimDriver {
             if peer.closed {
                 continue;
             }
-            if peer.ep_is_server && !peer.connect_sent {
+            if peer.ep_is_server && !peer.connect_sent && !plan.peer.skip_connect {
                 acts.push((Act::PeerConnect(c), 40));
                 continue;
             }
@@ -364,6 +364,11 @@ impl SimDriver {
                 let step = plan.peer.script[peer.script_pos].clone();
                 peer.script_pos += 1;
                 if !step.bytes.is_empty() {
+                    if let Some(Pkt::Publish(p)) = &step.pkt
+                        && p.qos > 0
+                    {
+                        peer.qos_pubs_sent += 1;
+                    }
                     self.peer_send(peer, c, step.pkt.clone(), step.bytes.clone(), step.corrupt.clone());
                 }
                 if let Some(rst) = step.then_close {
